@@ -10,6 +10,8 @@ from fractions import Fraction
 from . import expr as X
 from .expr import Node
 from .report import AnalysisError
+import os as _os
+_HOOKLOG = bool(_os.environ.get('VERIF_HOOKLOG'))
 
 
 class ReturnSignal(Exception):
@@ -456,6 +458,7 @@ class Interp:
             if h is not None:
                 r = h(self, st, v, fr)
                 if r is not None:
+                    if _HOOKLOG: print(f'HOOKLOG node {fr.mod.where(st)} `{ast.unparse(getattr(st, "test", st))[:90]}` -> {r}')
                     return r
             if v.op == 'cmp' and v.args[0] is v.args[1]:
                 return {'>': False, '>=': True, '<': False, '<=': True, '==': True, '!=': False}[v.val]      # a value compared with itself
@@ -479,6 +482,7 @@ class Interp:
             if h is not None:
                 r = h(self, st, v, fr)
                 if r is not None:
+                    if _HOOKLOG: print(f'HOOKLOG opaque({v.name}) {fr.mod.where(st)} `{ast.unparse(getattr(st, "test", st))[:90]}` -> {r}')
                     return r
             h = self.hooks.get('fork')
             if h is not None and v.name.startswith('tolerance test'):
